@@ -17,7 +17,7 @@ RULE = ("full product over pairs of operations (ids x paths x tag layout) and pa
         "collision alphabets; deviation-bounded builder (d<=2 quick, d<=3 thorough) over 3 operations / 3 schemas with broken "
         "units, unsupported or broken responses and request media types, dependants of broken schemas at distance 1 and 2; "
         "oracle = census: every operation is served by its own generated module (found by calling it) or named by a diagnostic, "
-        "every object/enum schema has its own class or is named by a diagnostic; non-trivial = generated and census taken; every ordered selection of 1-3 request media types in one body; path items with shared (good / 5 broken) parameters x 4 methods each inheriting / re-declaring / absent; every builder document also under generate_all_tags")
+        "every object/enum schema has its own class or is named by a diagnostic; non-trivial = generated and census taken; every ordered selection of 1-3 request media types in one body; path items with shared (good / 5 broken) parameters x 4 methods each inheriting / re-declaring / absent; every builder document also under generate_all_tags; typed responses next to content-less statuses, request bodies on all eight methods (inline / by reference), broken-root dependant chains no operation mentions x related names x edge kinds; the census matches whole name tokens")
 FLOOR = 0.5
 ASSUMPTIONS = ["a diagnostic 'names' an item when the method and path (or the schema name) occur in its header+detail+data",
                "which class belongs to a component is read from the generator's own claim and then verified on the tree"]
